@@ -89,11 +89,21 @@ macro_rules! make_subject {
             cucumber::verif::take_dispatch().expect("hook H3 did not hand over the Dispatch");
         // (a template kept around while a clone of it runs, as in a test matrix)
         let keep = cfg.clone_alive.then(|| c.clone());
-        let fut = async move {
-            let _ = c.run(()).await;
-            drop(keep);
-        }
-        .boxed_local();
+        let fut = if cfg.custom_which {
+            // a type-changing builder method applied *after* tracing was initialised
+            let c = c.which_scenario(spec::custom_which_fn());
+            async move {
+                let _ = c.run(()).await;
+                drop(keep);
+            }
+            .boxed_local()
+        } else {
+            async move {
+                let _ = c.run(()).await;
+                drop(keep);
+            }
+            .boxed_local()
+        };
         let b: Box<dyn Subject> =
             Box::new(TracedSubject { fut, dispatch, outer: cfg.outer_span, outer_span: None });
         b
@@ -101,7 +111,7 @@ macro_rules! make_subject {
 }
 
 pub fn subject(cfg: &Config) -> Box<dyn Subject> {
-    assert!(cfg.before == cfg.after && !cfg.custom_which);
+    assert!(cfg.before == cfg.after);
     let mut base = Basic::<TW>::default();
     if let Some(c) = cfg.conc_builder {
         base = base.max_concurrent_scenarios(c);
@@ -155,15 +165,19 @@ pub fn family(tier: Tier) -> Vec<Config> {
                             (Some(2), false, true),
                             // a clone of the Cucumber kept alive (flagged by conc Some(3))
                             (Some(3), false, false),
+                            // `which_scenario` applied after `init_tracing` (flagged by conc Some(5))
+                            (Some(5), false, false),
                         ] {
                             let clone_alive = conc == Some(3);
-                            if (outer || warn || clone_alive) && (gates == GateMode::All || fault != "none") {
+                            let which_late = conc == Some(5);
+                            if (outer || warn || clone_alive || which_late) && (gates == GateMode::All || fault != "none") {
                                 continue;
                             }
                             let mut cfg = Config::default();
                             cfg.outer_span = outer;
                             cfg.warn_filter = warn;
                             cfg.clone_alive = clone_alive;
+                            cfg.custom_which = which_late;
                             let mut tags: Vec<&str> = vec![];
                             if retry > 0 {
                                 tags.push("retry(1)");
